@@ -145,34 +145,76 @@ func callVariadicShape(fd *ast.FuncDecl) bool {
 	return str(fd.Body.List[1]) == "return v.Call(in)"
 }
 
-// callFrameKeepsAnc: newCallFrame(anc *frame, length int) builds its frame with `f := newFrame(anc, length, …)`, never assigns
-// f.anc and returns f — the ancestor of the per-call frame is the frame it is given (run id and cancellation channel come
-// from the root frame). Set in main.
+// callFrameKeepsAnc: newCallFrame(…, anc *frame, …) builds its frame with `&frame{anc: anc, …}` (since dc95f3e; before:
+// `f := newFrame(anc, length, …)`), never assigns anc or f.anc, and returns that frame — the ancestor of the per-call frame
+// is the frame it is given (run id, epoch and cancellation channel come from the interpreter). Set in main.
 var callFrameKeepsAnc bool
 
 func callFrameShape(fd *ast.FuncDecl) bool {
-	if fd == nil || fd.Body == nil || len(fd.Body.List) == 0 {
+	if fd == nil || fd.Body == nil || len(fd.Body.List) == 0 || fd.Type.Params == nil {
 		return false
 	}
-	if ps := fd.Type.Params; ps == nil || len(ps.List) != 2 || len(ps.List[0].Names) != 1 || len(ps.List[1].Names) != 1 ||
-		ps.List[0].Names[0].Name != "anc" || str(ps.List[0].Type) != "*frame" || ps.List[1].Names[0].Name != "length" {
+	// the position of the parameter `anc *frame` (1 in newCallFrame(interp, anc, length, e), 0 in the older
+	// newCallFrame(anc, length)) is what the call sites are read with
+	callFrameAncArg = -1
+	pos := 0
+	for _, fl := range fd.Type.Params.List {
+		for _, nm := range fl.Names {
+			if nm.Name == "anc" && str(fl.Type) == "*frame" {
+				callFrameAncArg = pos
+			}
+			pos++
+		}
+	}
+	callFrameArgs = pos
+	if callFrameAncArg < 0 {
 		return false
 	}
 	made, bad := 0, false
 	ast.Inspect(fd, func(m ast.Node) bool {
-		if as, ok := m.(*ast.AssignStmt); ok && len(as.Lhs) == 1 && len(as.Rhs) == 1 {
-			lhs := str(as.Lhs[0])
-			if c, ok := as.Rhs[0].(*ast.CallExpr); ok && lhs == "f" && str(c.Fun) == "newFrame" && len(c.Args) == 3 &&
-				str(c.Args[0]) == "anc" && str(c.Args[1]) == "length" {
-				made++
-			} else if lhs == "f" || lhs == "f.anc" || lhs == "anc" {
-				bad = true
+		switch x := m.(type) {
+		case *ast.AssignStmt:
+			if len(x.Lhs) == 1 && len(x.Rhs) == 1 {
+				lhs := str(x.Lhs[0])
+				if c, ok := x.Rhs[0].(*ast.CallExpr); ok && lhs == "f" && str(c.Fun) == "newFrame" && len(c.Args) == 3 &&
+					str(c.Args[0]) == "anc" && str(c.Args[1]) == "length" {
+					made++
+				} else if lhs == "f" || lhs == "f.anc" || lhs == "anc" {
+					bad = true
+				}
+			}
+		case *ast.CompositeLit:
+			// `&frame{anc: anc, …}`: the frame is built in place
+			if str(x.Type) == "frame" {
+				ok := false
+				for _, e := range x.Elts {
+					if kv, isKV := e.(*ast.KeyValueExpr); isKV && str(kv.Key) == "anc" {
+						ok = str(kv.Value) == "anc"
+					}
+				}
+				if ok {
+					made++
+				} else {
+					bad = true
+				}
 			}
 		}
 		return true
 	})
-	return made == 1 && !bad && str(fd.Body.List[len(fd.Body.List)-1]) == "return f"
+	if made != 1 || bad {
+		return false
+	}
+	last := fd.Body.List[len(fd.Body.List)-1]
+	rs, ok := last.(*ast.ReturnStmt)
+	if !ok || len(rs.Results) != 1 {
+		return false
+	}
+	r := str(rs.Results[0])
+	return r == "f" || strings.HasPrefix(r, "&frame{")
 }
+
+// position of `anc` among the parameters of newCallFrame and their number (set by callFrameShape)
+var callFrameAncArg, callFrameArgs int
 
 // deferCallSliceShape: deferCallSlice(fn) ends in
 // `return reflect.MakeFunc(reflect.FuncOf(in, out, false), func(args []reflect.Value) []reflect.Value { return fn.CallSlice(args) })`.
@@ -567,8 +609,8 @@ func main() {
 									if str(c.Fun) == "newFrame" && len(c.Args) == 3 {
 										newFrameArg += str(c.Args[0]) + ";"
 									}
-									if str(c.Fun) == "newCallFrame" && len(c.Args) == 2 && callFrameKeepsAnc {
-										newFrameArg += str(c.Args[0]) + ";"
+									if str(c.Fun) == "newCallFrame" && callFrameKeepsAnc && len(c.Args) == callFrameArgs {
+										newFrameArg += str(c.Args[callFrameAncArg]) + ";"
 									}
 									if str(c.Fun) == "f.mutex.Lock" {
 										locks++
